@@ -5,8 +5,8 @@
    fileid against the backend's Lstat, for ALL server states, credentials and requests), the fileid of BOTH origins
    (invariant AcFid, all histories), the wire type as a function of the Lstat kind (symlinks are NF3LNK, dangling or
    not), and SETATTR (any mode value).  Type/size/permission coherence of cache-served LOOKUP blocks is a separate
-   obligation (cache coherence); C04_statement_refuted shows it needs a hypothesis: it fails for paths aliased through
-   a symlinked directory reached by MNT.
+   obligation (cache coherence); C04_statement_refuted shows it needs a hypothesis: it fails through a stale directory
+   handle whose ancestor directory was renamed away and replaced by a symlink (two path names for one object).
 
    fattr_ok f p b   := exists fi, be_stat f p false = Ok fi /\ type b = ftype_of (kind fi) /\ perm, size = fi's /\ fileid b = fileid_of p
    opt_ok f p x     := x = Some b -> fattr_ok f p b                       (error replies carry None)
